@@ -70,6 +70,7 @@ def run(ctx):
     from . import findings3 as _f3
     _f3.thrift_reader_forms(ctx, 'R10.17', None)
     _f3.read_conversions(ctx, 'R3.28')
+    _f3.logical_annotations(ctx, 'R3.29')
     _cs.general_rules(ctx, 'R3', ['core', 'encoding', 'api.ParquetFile.read_row_group_file', 'converted_types', 'writer.convert', 'writer.find_type'])
 
 
